@@ -333,6 +333,7 @@ func genCase(rt *rapid.T) Case {
 			}
 		case "nil":
 			c.Img.Nil = true
+			c.Img.TypedNil = rapid.Bool().Draw(rt, "typednil")
 		case "huge-empty":
 			c.Img.W, c.Img.H, c.Img.Empty = rapid.SampledFrom([]int{1 << 16, 1 << 20, 1 << 30}).Draw(rt, "hw"), rapid.SampledFrom([]int{1 << 16, 1 << 20, 64, 256}).Draw(rt, "hh"), true
 		default:
